@@ -137,3 +137,58 @@ def interior_points(cls, src, nps, k=3):
         c = v.mean(axis=0)
         return c + 0.9 * (w @ v - c)
     return None
+
+
+CUBE12 = np.array([[0, 1, 3], [0, 3, 2], [4, 6, 7], [4, 7, 5], [0, 4, 5], [0, 5, 1], [2, 3, 7], [2, 7, 6], [0, 2, 6], [0, 6, 4], [1, 5, 7], [1, 7, 3]])
+
+
+def box_mesh(dims, polarization, position=(0, 0, 0), orientation=None):
+    """TriangularMesh of an origin-centred box (12 faces)"""
+    import magpylib as magpy
+
+    verts = np.array([[x, y, z] for x in (-1, 1) for y in (-1, 1) for z in (-1, 1)]) * np.asarray(dims, float) / 2
+    return magpy.magnet.TriangularMesh(vertices=verts, faces=CUBE12, polarization=polarization, position=position, orientation=orientation)
+
+
+def mesh_row(rng, nps, spacing=6.0, rotate=False):
+    """A row of box meshes with EQUAL face counts arranged so that a row-grouping shortcut is most likely to go wrong:
+    the same mesh re-appearing after a different one (A, B, A ...), origin-centred boxes of different size (equal vertex
+    sums), boxes differing in one dimension only.  Returns (meshes, the equivalent Cuboids, dims, positions, orientations)."""
+    import magpylib as magpy
+
+    kind = rng.choice(["aba", "abab", "centred-sizes", "one-dimension", "aab"])
+    dA, dB = nps.uniform(0.6, 1.2, 3), nps.uniform(1.4, 2.4, 3)
+    if rng.random() < 0.5:  # dyadic sizes: sums over the vertices cancel exactly (checksum-style comparisons collide)
+        dA, dB = nps.choice([0.5, 0.75, 1.0, 1.25], 3), nps.choice([1.5, 2.0, 2.5], 3)
+    if kind == "one-dimension":
+        dB = dA.copy()
+        dB[rng.randrange(3)] *= 2.5
+    dims = {"aba": [dA, dB, dA], "abab": [dA, dB, dA, dB], "centred-sizes": [dA, dB, dA * 0.5], "one-dimension": [dA, dB, dA], "aab": [dA, dA, dB]}[kind]
+    pos = [np.array([spacing * j, 0.0, 0.0]) for j in range(len(dims))]
+    oris = [(R.random(rng=nps) if rotate and rng.random() < 0.5 else None) for _ in dims]
+    pols = [nps.uniform(-1, 1, 3) for _ in dims]
+    meshes = [box_mesh(d, p, position=q, orientation=o) for d, p, q, o in zip(dims, pols, pos, oris)]
+    cubs = [magpy.magnet.Cuboid(dimension=d, polarization=p, position=q, orientation=o) for d, p, q, o in zip(dims, pols, pos, oris)]
+    return kind, meshes, cubs, dims, pos, oris
+
+
+def lattice_points(d, nps, n=6):
+    """interior points of an origin-centred box of dimensions d whose coordinates are round fractions of the half
+    sizes (the places where a ray cast along a lattice direction meets edges and vertices of the surface mesh)"""
+    fr = np.array([-0.45, -0.4, -0.325, -0.175, -0.15, 0.0, 0.1, 0.25, 0.4])
+    pts = np.stack([nps.choice(fr, n), nps.choice(fr, n), nps.choice(fr, n)], axis=1) * np.asarray(d)
+    pts[0] = 0.0  # the centre
+    return pts
+
+
+def lattice_box_case(rng, nps):
+    """a box mesh with dyadic dimensions at the origin, unrotated, and a regular grid of interior observers whose
+    coordinates are exact binary fractions of the dimensions (rays cast from them along lattice directions pass exactly
+    through edges and vertices of the triangulation); returns (mesh, the same body as a Cuboid, observers)"""
+    import magpylib as magpy
+
+    d = nps.choice([0.5, 1.0, 2.0, 4.0], 3) if rng.random() < 0.5 else np.full(3, float(nps.choice([1.0, 2.0])))
+    pol = nps.uniform(-1, 1, 3)
+    g = np.arange(-3, 4) / 16.0 if rng.random() < 0.5 else np.array([-0.45, -0.4, -0.325, -0.175, 0.0, 0.1, 0.25])
+    obs = np.array([[x, y, z] for x in g for y in g for z in g]) * d
+    return box_mesh(d, pol), magpy.magnet.Cuboid(dimension=d, polarization=pol), obs
